@@ -25,6 +25,7 @@ RULE = (
     "out-of-range stored value, or a freed link slot, or mutated option bytes"
     ' Also (added while the seeded-change rounds of DESIGN section 9 ran): Also: MetaModule sources with mapped user controllers, stored-twice links, trailing empty positions with selections pointing into them, clone chains, interleaved saves with an unrelated project.'
 )
+RULE += " Rounds 12-14 of DESIGN section 9 added: Samplers over the grid of instrument format versions x editor fields; files with surplus controller values behind a module's last CVAL (mutation and a sweep over every fixture)."
 ASSUMPTIONS = [
     "a mutant that the library refuses to load is outside the property's quantifier ('for any loadable file')",
     "mutations touch top-level chunks only (embedded projects/effects are exercised through generated files)",
